@@ -143,6 +143,7 @@ impl Default for GenCfg {
                 .iter()
                 .map(|f| f.key.to_string())
                 .chain(crate::findings::MODULE_LEVEL_FINDINGS.iter().map(|f| f.0.to_string()))
+                .chain(crate::findings::ASSIGN_FINDINGS.iter().map(|f| f.0.to_string()))
                 .collect(),
             known_per_mille: 0,
         }
@@ -388,8 +389,27 @@ impl<'c> MGen<'c> {
                         cands.push((v, 0));
                     }
                 }
-                DeclKind::Const | DeclKind::Param => {
-                    if dd.value.as_ref().map(|x| *x < BigUint::from(limit)).unwrap_or(false) {
+                // (parameters are left out: the module is also elaborated
+                // with the declared default, which may be far out of range —
+                // an exponent of 2^32 keeps the analyzer busy for minutes)
+                DeclKind::Param => {}
+                DeclKind::Const => {
+                    let on_param = {
+                        fn dep(m: &Module, e: &Expr) -> bool {
+                            let mut found = false;
+                            crate::findings::walk(m, e, 1, &mut |m, n| {
+                                if let Expr::Ref(r) = n.e {
+                                    let d = &m.decls[r.decl];
+                                    if d.kind == DeclKind::Param || (d.kind == DeclKind::Const && d.init.as_ref().map(|i| dep(m, i)).unwrap_or(false)) {
+                                        found = true;
+                                    }
+                                }
+                            });
+                            found
+                        }
+                        dd.init.as_ref().map(|i| dep(&self.m, i)).unwrap_or(false)
+                    };
+                    if !on_param && dd.value.as_ref().map(|x| *x < BigUint::from(limit)).unwrap_or(false) {
                         cands.push((v, 0));
                     }
                 }
@@ -657,29 +677,51 @@ impl<'c> MGen<'c> {
         }
     }
 
-    fn case_items(&mut self, d: &mut Draw, t: Ty) -> Vec<RangeItem> {
+    /// Items of one case arm / `inside` list: values and ranges of type `t`
+    /// that do not overlap anything in `used` (overlapping arms hit the known
+    /// finding `case-expression-priority`); may be empty when the value space
+    /// is exhausted.
+    fn case_items(&mut self, d: &mut Draw, t: Ty, used: &mut Vec<(BigUint, BigUint)>) -> Vec<RangeItem> {
         let n = 1 + d.below(2);
         let mut items = vec![];
+        let allow_overlap = !self.cfg.avoid.contains("case-expression-priority");
+        let lim = if t.w >= 16 { 1u64 << 16 } else { 1u64 << t.w };
         for _ in 0..n {
-            let lim = if t.w >= 16 { 1u64 << 16 } else { 1u64 << t.w };
-            let small = |d: &mut Draw| d.below(lim.min(40) as u32) as u64;
-            match d.weighted(&[5, 1, 1]) {
-                0 => {
-                    let v = if d.chance(3, 4) { BigUint::from(small(d)) } else { gen_value(d, t.w) };
-                    items.push(RangeItem::Val(Expr::lit(t, v & mask(t.w))));
-                }
-                k => {
-                    let a = small(d);
-                    let b = a + d.below(4) as u64;
-                    let (a, b) = (a.min((lim - 1) as u64), b.min((lim - 1) as u64));
-                    let (lo, hi) = (self.lit_of(t, a), self.lit_of(t, b.max(a)));
-                    if k == 1 && b > a {
-                        items.push(RangeItem::Excl(lo, hi));
-                    } else {
-                        items.push(RangeItem::Incl(lo, hi));
+            for _try in 0..6 {
+                let small = |d: &mut Draw| d.below(lim.min(40) as u32) as u64;
+                let (lo, hi, kind) = match d.weighted(&[5, 1, 1]) {
+                    0 => {
+                        let v = if d.chance(3, 4) { BigUint::from(small(d)) } else { gen_value(d, t.w) };
+                        (v.clone(), v, 0)
                     }
-                    self.class("item:range");
+                    k => {
+                        let a = small(d);
+                        let b = (a + d.below(4) as u64).min(lim - 1);
+                        (BigUint::from(a), BigUint::from(b.max(a)), k)
+                    }
+                };
+                if !allow_overlap && used.iter().any(|(l, h)| !(hi < *l || lo > *h)) {
+                    continue;
                 }
+                used.push((lo.clone(), hi.clone()));
+                match kind {
+                    0 => items.push(RangeItem::Val(Expr::lit(t, lo))),
+                    1 if t.w < 64 || hi < mask(t.w) => {
+                        // exclusive upper bound hi+1
+                        let e = &hi + BigUint::from(1u32);
+                        if e <= mask(t.w) {
+                            items.push(RangeItem::Excl(Expr::lit(t, lo), Expr::lit(t, e)));
+                        } else {
+                            items.push(RangeItem::Incl(Expr::lit(t, lo), Expr::lit(t, hi)));
+                        }
+                        self.class("item:range");
+                    }
+                    _ => {
+                        items.push(RangeItem::Incl(Expr::lit(t, lo), Expr::lit(t, hi)));
+                        self.class("item:range");
+                    }
+                }
+                break;
             }
         }
         items
@@ -901,8 +943,12 @@ impl<'c> MGen<'c> {
                 let first = self.gen_expr(d, sc, depth - 1, hint, sg);
                 let ht = Some(ty_of(&self.m, &first));
                 let mut first = Some(first);
+                let mut used = vec![];
                 for _ in 0..n {
-                    let items = self.case_items(d, st);
+                    let items = self.case_items(d, st, &mut used);
+                    if items.is_empty() {
+                        continue;
+                    }
                     let a = match first.take() {
                         Some(f) => f,
                         None => self.gen_expr(d, sc, depth - 1, ht, sg),
@@ -930,7 +976,7 @@ impl<'c> MGen<'c> {
             }
             16 => {
                 let (x, xt) = self.gen_selector(d, sc, depth - 1);
-                let items = self.case_items(d, xt);
+                let items = self.case_items(d, xt, &mut vec![]);
                 let neg = d.chance(1, 3);
                 self.class(if neg { "expr:outside" } else { "expr:inside" });
                 Expr::Inside(Box::new(x), items, neg)
@@ -939,6 +985,13 @@ impl<'c> MGen<'c> {
                 let f = sc.funcs[d.below_usize(sc.funcs.len())];
                 let args_d = self.m.funcs[f].args.clone();
                 let mut args = vec![];
+                // no calls inside call arguments: the simulator inlines
+                // functions and rejects `f(f(x))` as recursive
+                let sc_args = Scope {
+                    funcs: vec![],
+                    ..sc.clone()
+                };
+                let sc = &sc_args;
                 for a in args_d {
                     let t = self.m.decls[a].ty;
                     let mut e = self.gen_expr(d, sc, depth - 1, Some(t), false);
@@ -968,10 +1021,17 @@ impl<'c> MGen<'c> {
     /// finding (see `findings.rs`) when assigned to a `dest_w`-bit target;
     /// after a few tries fall back to a literal.
     fn checked(&mut self, d: &mut Draw, dest_w: u32, f: &mut dyn FnMut(&mut Self, &mut Draw) -> Expr) -> Expr {
+        self.checked_for(d, dest_w, false, f)
+    }
+
+    /// `partial`: the target is a bit/part select or a struct field (the
+    /// statement-level findings of `findings::assign_hits` apply too).
+    fn checked_for(&mut self, d: &mut Draw, dest_w: u32, partial: bool, f: &mut dyn FnMut(&mut Self, &mut Draw) -> Expr) -> Expr {
         for _ in 0..4 {
             let saved = self.classes.clone();
             let e = f(self, d);
-            let hits = crate::findings::hits(&self.m, &e, dest_w);
+            let mut hits = crate::findings::hits(&self.m, &e, dest_w);
+            hits.extend(crate::findings::assign_hits(&self.m, partial, dest_w, &e));
             let bad: Vec<&str> = hits.into_iter().filter(|k| self.cfg.avoid.contains(*k)).collect();
             if bad.is_empty() {
                 return e;
@@ -987,13 +1047,19 @@ impl<'c> MGen<'c> {
             }
             self.classes = saved;
         }
-        Expr::lit(Ty::u(dest_w.max(1)), gen_value(d, dest_w.max(1)))
+        let w = if partial { dest_w.clamp(1, 64) } else { dest_w.max(1) };
+        Expr::lit(Ty::u(w), gen_value(d, w))
     }
 
     /// Top-level expression for a target of type `t`: picks the signed mode
     /// now and then so that signed contexts are well represented.
     fn gen_rhs(&mut self, d: &mut Draw, sc: &Scope, t: Ty) -> Expr {
-        self.checked(d, t.w, &mut |this, d| {
+        self.gen_rhs_for(d, sc, t, false)
+    }
+
+    /// `partial` = the target is a select / field of a variable.
+    fn gen_rhs_for(&mut self, d: &mut Draw, sc: &Scope, t: Ty, partial: bool) -> Expr {
+        self.checked_for(d, t.w, partial, &mut |this, d| {
             let sg = this.cfg.signed && d.chance(1, 4);
             let depth = 1 + d.below(this.cfg.expr_depth);
             let hint = if d.chance(1, 2) { Some(t) } else { None };
